@@ -254,6 +254,51 @@ def clause2_accept(ctx, P, cg):
                "after accept() failed with %s the accept loop returns instead of trying the next pending connection: with the "
                "edge-triggered listener the attempts queued behind the aborted one stay unserved until another connection arrives" % name
                if v else "%s: next pending connection is tried" % name, witness=v.witness() if v else None)
+    # the dual: a shortage of resources (descriptors, memory) does not go away by asking again - every way back to accept()
+    # after a failed accept() is closed for those errno values, or one client holding the descriptors open spins the loop for ever
+    PERSIST = ("EMFILE", "ENFILE", "ENOBUFS", "ENOMEM")
+    spin = {}
+    nback = 0
+    for v in views:
+        occ = [k for k, blk in enumerate(v.blocks) if blk == acc[0].block]
+        if len(occ) < 2:
+            continue
+        conds = [(a, p) for (_, a, p) in v.path[occ[0] + 1:occ[1] + 1] if a is not None]
+        if not any(a[0] == "cmp" and a[2][0] == "call" and a[2][3] == acc[0].id and a[3] == ("const", -1) and Q._poleq(a, p) for (a, p) in conds):
+            continue   # the way back after a successful accept
+        nback += 1
+        b = v.blocks[occ[1] - 1]
+        excluded = set()
+        included = None
+        for (a, p) in conds:
+            if a[0] == "cmp" and is_errno(a[2]) and a[3][0] == "const":
+                if Q._poleq(a, p):
+                    included = {a[3][1]}
+                else:
+                    excluded.add(a[3][1])
+            if a[0] == "switch" and is_errno(a[1]):
+                included = {a[2]}
+            if a[0] == "switch_default" and is_errno(a[1]):
+                excluded |= set(a[2])
+            if a[0] == "truth" and a[1][0] == "call" and len(a[1][2]) == 1 and is_errno(a[1][2][0]):
+                hs = P.by_src.get(a[1][1], [])
+                if len(hs) == 1 and P.own(hs[0]):
+                    ts = true_set(hs[0])
+                    if p:
+                        included = ts if included is None else (included & ts)
+                    else:
+                        excluded |= ts
+        for name in PERSIST:
+            val = Q.macro(P, "linux_io.c", name)
+            if (included is None or val in included) and val not in excluded:
+                spin.setdefault(name, b)
+    for name in PERSIST:
+        b = spin.get(name)
+        ctx.ob("C11.2 R-LOOP", ac, "accept-does-not-spin:" + name, b is None and nback >= 1,
+               "after accept() failed with %s the loop asks again at once (back edge from %s): the shortage persists as long as a "
+               "client keeps its connections open, the daemon never returns to its event loop and no peer is served any more" %
+               (name, ac.blocks[b][-1].loc if b is not None else "?") if b is not None else
+               ("%s: no way back to accept()" % name if nback else "no retry edge after a failed accept found"))
     ctx.note("accept loop: %d abort path(s) after a failed accept" % n_abort)
     # connection-level callbacks never abort the loop
     for fld in ("read_function", "write_function", "error_function"):
